@@ -245,8 +245,12 @@ def run_case(case):
                 res.fail("honest-branch-rejected", "if_branch_valid(get_branch(%r), root, %r, %r) did not validate" % (k, k, truth))
             validate(br, root, k, b"wrong", "honest-wrong-answer", truth)
             validate(br, root, k, None if truth is not None else b"v", "honest-flipped-answer", truth)
+            flipped = None if truth is not None else b"v"
             for i in range(len(br)):
                 validate(br[:i] + br[i + 1:], root, k, truth, "truncated", truth)
+                # a corrupted branch must not validate the OPPOSITE answer either ("cannot tell" is not "absent":
+                # seeded change C13n-valid-missing-node-means-absent)
+                validate(br[:i] + br[i + 1:], root, k, flipped, "truncated-flipped-answer", truth)
             i = rng.randrange(len(br))
             nd = bytearray(br[i])
             j = rng.randrange(len(nd))
@@ -261,6 +265,7 @@ def run_case(case):
             k2 = rng.choice(probes)
             try:
                 validate(list(get_branch(db, root, k2)) or [b"\x02x"], root, k, truth, "other-key", truth)
+                validate(list(get_branch(db, root, k2)) or [b"\x02x"], root, k, flipped, "other-key-flipped-answer", truth)
             except InvalidKeyError:
                 pass
             try:
@@ -278,7 +283,11 @@ def run_case(case):
                 res.fail("branch-exist-wrong", "check_if_branch_exist(%r) = %r on keys %r" % (p, e, sorted(model)))
         # witness
         try:
-            w = list(get_witness_for_key_prefix(db, root, k))
+            wres = get_witness_for_key_prefix(db, root, k)
+            w = list(wres)
+            if list(wres) != w:
+                res.fail("witness-not-reiterable", "the result of get_witness_for_key_prefix(%r) yields %d nodes on a second look, %d on the first"
+                         % (k, len(list(wres)), len(w)))
             out = nodes_txt(w)
         except InvalidKeyError:
             w, out = None, "exn InvalidKeyError"
@@ -304,7 +313,34 @@ def run_case(case):
                         res.fail("witness-wrong-answer", "witness for %r answers get(%r) = %r, the trie holds %r" % (k, q, g, model.get(q)))
                 except KeyError:
                     res.fail("witness-insufficient", "witness for %r cannot answer get(%r): a node is missing" % (k, q))
-    tn = list(get_trie_nodes(db, root))
+    # the empty prefix: every stored key starts with it — the witness must answer all of them, as a re-iterable collection
+    # (seeded change C13n-witness-empty-prefix-one-shot-generator)
+    e = check_if_branch_exist(db, root, b"")
+    res.emit("bin.exists 0 -", str(e))
+    if e != bool(model):
+        res.fail("branch-exist-wrong", "check_if_branch_exist(b'') = %r on keys %r" % (e, sorted(model)))
+    try:
+        wres = get_witness_for_key_prefix(db, root, b"")
+        w = list(wres)
+        if list(wres) != w:
+            res.fail("witness-not-reiterable", "the result of get_witness_for_key_prefix(b'') yields %d nodes on a second look, %d on the first"
+                     % (len(list(wres)), len(w)))
+        res.emit("bin.witness 0 -", nodes_txt(w))
+        res.tags.add("witness:empty-prefix")
+        wdb = {keccak(n): n for n in w}
+        for q in sorted(model):
+            try:
+                if BinaryTrie(wdb, root).get(q) != model[q]:
+                    res.fail("witness-wrong-answer", "witness for b'' answers get(%r) wrongly" % (q,))
+            except KeyError:
+                res.fail("witness-insufficient", "witness for b'' cannot answer get(%r): a node is missing" % (q,))
+    except Exception as ex:  # noqa
+        res.emit("bin.witness 0 -", "exn " + common.exc_name(ex))
+        res.fail("witness-raised", "get_witness_for_key_prefix(b'') raised %r" % (ex,))
+    tn_res = get_trie_nodes(db, root)
+    tn = list(tn_res)
+    if list(tn_res) != tn:
+        res.fail("witness-not-reiterable", "the result of get_trie_nodes is not re-iterable")
     res.emit("bin.nodes 0", nodes_txt(tn))
     overlay_db_agrees(res, db, root, probes)
     res.emit("bin.rnodes %s" % hx(root), nodes_txt(tn))
